@@ -3,11 +3,14 @@ module verif/harness
 go 1.24.0
 
 require (
+	github.com/golang/protobuf v1.5.4
 	github.com/google/gopacket v1.1.19
 	github.com/omec-project/upf-epc v0.0.0
+	github.com/p4lang/p4runtime v1.3.0
 	github.com/prometheus/client_golang v1.11.1
 	github.com/wmnsk/go-pfcp v0.0.24
 	go.uber.org/zap v1.27.0
+	google.golang.org/genproto v0.0.0-20230410155749-daa745c078e1
 	google.golang.org/grpc v1.71.0
 	google.golang.org/protobuf v1.36.5
 )
@@ -17,11 +20,9 @@ require (
 	github.com/beorn7/perks v1.0.1 // indirect
 	github.com/cespare/xxhash/v2 v2.3.0 // indirect
 	github.com/deckarep/golang-set v1.8.0 // indirect
-	github.com/golang/protobuf v1.5.4 // indirect
 	github.com/grpc-ecosystem/go-grpc-middleware v1.3.0 // indirect
 	github.com/libp2p/go-reuseport v0.1.0 // indirect
 	github.com/matttproud/golang_protobuf_extensions v1.0.4 // indirect
-	github.com/p4lang/p4runtime v1.3.0 // indirect
 	github.com/prometheus/client_model v0.2.0 // indirect
 	github.com/prometheus/common v0.26.0 // indirect
 	github.com/prometheus/procfs v0.6.0 // indirect
@@ -29,7 +30,6 @@ require (
 	golang.org/x/net v0.38.0 // indirect
 	golang.org/x/sys v0.31.0 // indirect
 	golang.org/x/text v0.23.0 // indirect
-	google.golang.org/genproto v0.0.0-20230410155749-daa745c078e1 // indirect
 )
 
 replace github.com/omec-project/upf-epc => /repo
